@@ -211,15 +211,30 @@ class _Duck:
 
 def case_volume_model(case):
     """(v) VolumeModel: eta = -s mu0 V (sigma + s eps0 eps_r), zeta = V/mu_r
-    and anisotropy aliasing — symbolic s (stands for i*omega or real s)."""
-    shape, aniso, with_eps, with_mu = case
+    and anisotropy aliasing.  Laplace domain: s is a real symbol (and the
+    field's `frequency` is s); frequency domain: s = i*2*pi*f as a complex
+    pair with symbolic f."""
+    shape, aniso, with_eps, with_mu, domain = case
     E = shadow.load()
     c = set_ctx(Ctx())
     State.OBJECT_ALLOC = True
     h = [sym_array(f"h{'xyz'[d]}", shape[d], positive=True) for d in range(3)]
-    s = Q.var('s')
     mu0 = Q.var('mu_0')
     eps0 = Q.var('eps_0')
+    sfield = _Duck()
+    if domain == 'laplace':
+        s = Q.var('s')
+        c.assume(symx.B(s.t > 0))
+        sfield._frequency = -s
+        sfield.frequency = s
+    else:
+        f = Q.var('f')
+        c.assume(symx.B(f.t > 0))
+        s = symx.Qc(Q(Fraction(0)), Q(2*np.pi)*f)
+        sfield._frequency = f
+        sfield.frequency = f
+    sfield.sval = s
+    sfield.smu0 = s*mu0
     sig = {'x': sym_array('sig_x', shape, positive=True)}
     sig['y'] = sym_array('sig_y', shape, positive=True) \
         if aniso in ('HTI', 'triaxial') else None
@@ -239,20 +254,22 @@ def case_volume_model(case):
         sig['x'], sig['y'], sig['z']
     model.mu_r, model.epsilon_r = mur, eps
     model.map = E.maps.MapConductivity()
-    sfield = _Duck()
-    sfield.sval = s
-    sfield.smu0 = s*mu0
-    # scipy.constants.epsilon_0 -> symbolic constant
+    # scipy.constants -> symbolic constants
     real_sp = E.models.sp
     E.models.sp = symx.proxies._Namespace(real_sp, dict(
         constants=symx.proxies._Namespace(real_sp.constants,
-                                          dict(epsilon_0=eps0))))
+                                          dict(epsilon_0=eps0, mu_0=mu0))))
     try:
         vm = E.models.VolumeModel(model, sfield)
     finally:
         E.models.sp = real_sp
     grp = f"VolumeModel shape={shape} aniso={aniso} eps={with_eps} " \
-          f"mu={with_mu}"
+          f"mu={with_mu} domain={domain}"
+
+    def eq(a, b):
+        a, b = symx.Qc._co(a), symx.Qc._co(b)
+        return z3.And(symx.qt(a.re) == symx.qt(b.re),
+                      symx.qt(a.im) == symx.qt(b.im))
     conj = []
     for idx in np.ndindex(*shape):
         V = h[0][idx[0]]*h[1][idx[1]]*h[2][idx[2]]
@@ -260,27 +277,35 @@ def case_volume_model(case):
             sg = sig[d] if sig[d] is not None else sig['x']
             want = -s*mu0*V*(sg[idx]+(s*eps0*eps[idx] if with_eps else 0))
             got = getattr(vm, 'eta_'+d)[idx]
-            conj.append(symx.qt(got) == symx.qt(want))
+            conj.append(eq(got, want))
         wz = V/mur[idx] if with_mu else V
-        conj.append(symx.qt(vm.zeta[idx]) == symx.qt(wz))
+        conj.append(eq(vm.zeta[idx], wz))
     t1 = time.time()
     vd, m = c.valid(z3.And(*conj), label='volume model')
     obs = [ob(f"eta_xyz, zeta formulas on {int(np.prod(shape))} cells",
               vd, group=grp, seconds=time.time()-t1,
               cex=(dict(kind='volume_model', shape=list(shape), aniso=aniso,
-                        eps=with_eps, mu=with_mu) if vd == 'cex' else None),
+                        eps=with_eps, mu=with_mu, domain=domain)
+                   if vd == 'cex' else None),
               key=f"VolumeModel formula aniso={aniso} eps={with_eps} "
-              f"mu={with_mu}")]
+              f"mu={with_mu} domain={domain}")]
     # aliasing is by identity, not by value
     alias_ok = True
     if aniso in ('iso', 'VTI'):
         alias_ok &= vm.eta_y is vm.eta_x
     if aniso in ('iso', 'HTI'):
         alias_ok &= vm.eta_z is vm.eta_x
-    obs.append(ob("anisotropy aliasing (eta_y/eta_z are eta_x where the "
-                  "case says so)", 'held' if alias_ok else 'cex',
+    if aniso in ('HTI', 'triaxial'):
+        alias_ok &= vm.eta_y is not vm.eta_x
+    if aniso in ('VTI', 'triaxial'):
+        alias_ok &= vm.eta_z is not vm.eta_x
+    obs.append(ob("anisotropy aliasing (eta_y/eta_z are eta_x exactly where "
+                  "the case says so)", 'held' if alias_ok else 'cex',
                   cls='concrete', group=grp, nontrivial=False,
-                  key=f"VolumeModel aliasing aniso={aniso}"))
+                  key=f"VolumeModel aliasing aniso={aniso}",
+                  cex=(dict(kind='volume_model', shape=list(shape),
+                            aniso=aniso, eps=with_eps, mu=with_mu,
+                            domain=domain) if not alias_ok else None)))
     return obs
 
 
@@ -424,6 +449,8 @@ def replay(cex):
     """Replay a counterexample against the real (jitted) emg3d."""
     import emg3d
     kind = cex['kind']
+    if kind == 'volume_model':
+        return _replay_volume_model(cex)
     if kind not in ('operator', 'boundary', 'symmetry', 'gradient'):
         return True, f"{kind}: structural counterexample (no numeric replay)"
     shape = tuple(cex['shape'])
@@ -477,6 +504,44 @@ def replay(cex):
         return worst > 1e-9*sc, f"max |curl-curl grad phi| = {worst!r}"
 
 
+def _replay_volume_model(cex):
+    import emg3d
+    from scipy.constants import mu_0, epsilon_0
+    shape = tuple(cex['shape'])
+    rng = np.random.default_rng(2)
+    h = [rng.uniform(1, 3, n) for n in shape]
+    grid = emg3d.TensorMesh(h, (0, 0, 0))
+    an = cex['aniso']
+    kw = dict(property_x=rng.uniform(.5, 2, shape), mapping='Conductivity')
+    if an in ('HTI', 'triaxial'):
+        kw['property_y'] = rng.uniform(.5, 2, shape)
+    if an in ('VTI', 'triaxial'):
+        kw['property_z'] = rng.uniform(.5, 2, shape)
+    if cex['eps']:
+        kw['epsilon_r'] = rng.uniform(1, 9, shape)*1e5
+    if cex['mu']:
+        kw['mu_r'] = rng.uniform(1, 3, shape)
+    model = emg3d.Model(grid, **kw)
+    freq = -7.5e3 if cex['domain'] == 'laplace' else 2.5e6
+    sfield = emg3d.Field(grid, frequency=freq)
+    vm = emg3d.models.VolumeModel(model, sfield)
+    s = 7.5e3 if cex['domain'] == 'laplace' else 2j*np.pi*2.5e6
+    V = (h[0][:, None, None]*h[1][None, :, None]*h[2][None, None, :])
+    worst = 0.0
+    for d in 'xyz':
+        sg = kw.get('property_'+d, kw['property_x'])
+        want = -s*mu_0*V*(sg + (s*epsilon_0*kw['epsilon_r'] if cex['eps']
+                                else 0))
+        got = getattr(vm, 'eta_'+d)
+        worst = max(worst, float(np.abs(got-want).max()/np.abs(want).max()))
+    wz = V/kw['mu_r'] if cex['mu'] else V
+    worst = max(worst, float(np.abs(vm.zeta-wz).max()/np.abs(wz).max()))
+    return worst > 1e-9, (f"real VolumeModel ({an}, eps_r={cex['eps']}, "
+                          f"mu_r={cex['mu']}, {cex['domain']} domain) vs "
+                          f"-s mu0 V (sigma + s eps0 eps_r), V/mu_r: max "
+                          f"rel. diff {worst:.3e}")
+
+
 def main(tier):
     E = shadow.load()
     run = Run(PID, tier, design_ref='DESIGN.md §6 C02')
@@ -507,9 +572,10 @@ def main(tier):
     cases_sym = [(s, 'triaxial') for s in sym_shapes]
     cases_grad = [(s, 'iso') for s in sym_shapes]
     vm_shapes = [(2, 2, 2), (2, 3, 2)]
-    cases_vm = [(s, a, e, m) for s in vm_shapes
+    cases_vm = [(s, a, e, m, dom) for s in vm_shapes
                 for a in ('iso', 'VTI', 'HTI', 'triaxial')
-                for e in (False, True) for m in (False, True)]
+                for e in (False, True) for m in (False, True)
+                for dom in ('laplace', 'frequency')]
     cases_wr = [(3, 3, 3), (2, 3, 4)]
 
     jobs = ([(case_operator, x) for x in cases_op] +
